@@ -226,6 +226,8 @@ def run(ck):
     if ne == 0 or nsg == 0:
         raise MachineryError("vacuity: empty combinations / single-member groups not reached")
     ck.assumptions += ["fingerprints are exact in float64 for n <= 26 rows", "1-row ndarray feature containers are left to C12"]
+    from harness import extras
+    extras.naming(ck, limit=1600 if ck.quick else None)      # specification growth (refinement tier only): feature naming rules
 
 
 def replay(ck, path):
